@@ -384,7 +384,7 @@ func (u *Unit) vacuity() string {
 		b.WriteString(l)
 		b.WriteByte('\n')
 	}
-	r := Solve(b.String(), nil, u.eng.timeoutS, false)
+	r := Solve(b.String(), nil, 3, false)
 	switch r.Status {
 	case "sat":
 		return "preconditions satisfiable (" + r.Solver + ")"
